@@ -13,7 +13,11 @@ RULE = ("cases = generator configuration (data length in {1,2,3,4,5,8,17,64}(+mo
         "configuration (data_length 1..8, with/without max_length) x request script: every start position, max_length "
         "in 0..len+5, ready patterns always/random/stall-on-last-word/alternate, start held or pulsed, starts while busy; "
         "'in-domain' scripts (start position within the data, inputs stable during an emission) are judged by the monitor, "
-        "'wild' scripts (any signal value each cycle, truncating/clamped start positions) only tie the model to the code")
+        "'wild' scripts (any signal value each cycle, truncating/clamped start positions) only tie the model to the code; "
+        "'sweep' generator configurations: max_length_width 3..8 x word width 1/2/4 bytes (1-bit and per-byte valid) x constant "
+        "of 2**mlw + 2*wb + 3 bytes (longer than the port can count), start positions 0, 1, random, max_length swept over the "
+        "top 2*wb+1 values of its range (2**mlw-1 downwards, where bytes_sent + bytes_per_word reaches 2**mlw) and the rest of "
+        "the range (complete for mlw <= 4, sampled above), in-domain scripts judged by the monitor")
 ASSUMPTIONS = ["start position within the data (in words) and held stable while streaming (first is computed from the live input)",
                "serializer: data[], max_length held stable while streaming (they are not latched)",
                "bytes-like constant data, word width 1, 2 or 4 bytes, valid width 1 or one bit per byte"]
@@ -38,6 +42,14 @@ def gen_configs(tier, rng):
         for mlw in (0, 2 if n <= 2 else 4):
             cfgs.append({"kind": 1, "len": n, "wb": 1, "vw": 1, "mlw": mlw, "big": 0,
                          "flavour": "usb-in" if n == 2 else "plain"})
+    # narrow max_length ports with constants LONGER than 2**mlw bytes: max_length is swept up to the very top of its
+    # range, where bytes_sent + bytes_per_word reaches / exceeds 2**mlw (the comparison must not wrap at the port width)
+    for mlw in (3, 4, 5, 6, 7, 8):
+        for (wb, vw) in [(1, 1), (4, 4), (4, 1), (2, 1), (2, 2)]:
+            extra = [2 * wb + 3] if tier != "thorough" else [1, wb + 1, 2 * wb + 3, 4 * wb + 2]
+            for e in extra:
+                cfgs.append({"kind": 0, "len": (1 << mlw) + e, "wb": wb, "vw": vw, "mlw": mlw,
+                             "big": (mlw + wb) & 1 if wb > 1 else 0, "flavour": "plain", "sweep": 1})
     return cfgs
 
 
@@ -47,11 +59,11 @@ def gen_cases(tier, rng):
     per = {"quick": 1, "widen": 3, "thorough": 4}[tier]
     k = 0
     for c in cfgs:
-        if tier == "quick" and c["kind"] == 0 and c["wb"] == 2 and c["len"] not in (3, 5, 17):
+        if tier == "quick" and c["kind"] == 0 and c["wb"] == 2 and c["len"] not in (3, 5, 17) and not c.get("sweep"):
             continue
-        for j in range(per + (1 if c["kind"] == 1 else 0)):
+        for j in range(1 if c.get("sweep") and tier != "thorough" else per + (1 if c["kind"] == 1 else 0)):
             d = dict(c)
-            d.update({"seed": rng.u64(), "k": k, "mode": "wild" if (k % 4 == 3) else "domain"})
+            d.update({"seed": rng.u64(), "k": k, "mode": "wild" if (k % 4 == 3 and not c.get("sweep")) else "domain"})
             out.append(d)
             k += 1
     return out
@@ -140,9 +152,22 @@ def make_stimulus(desc, data, rng):
         sps = sps[:8] + [0, W - 1, W - 2, 1]
     ready_modes = ["always", "random", "stall-last", "alternate", "sparse"]
     t_budget = 2600
+    sweep = bool(desc.get("sweep"))
+    if sweep:
+        # constant longer than 2**mlw: start at the beginning (the max-length end always comes first), one word in, and
+        # somewhere else; max_length = every value of the top 2*wb+1 of the port's range first, then the rest of the
+        # range (all of it for narrow ports)
+        sps = [0, 1] + ([rng.below(W)] if mlw <= 6 else [])
+        t_budget = 5000
+        if mlw >= 6:
+            ready_modes = ["always", "random", "stall-last"]
     for s in sps:
         remaining = L - s * desc["wb"] if kind == 0 else L - s
-        if mlw:
+        if sweep:
+            top = list(range((1 << mlw) - 1, max((1 << mlw) - 2 * desc["wb"] - 2, 0), -1))
+            rest = rng.shuffle([v for v in range(1, 1 << mlw) if v not in top])
+            mls = top + rest[:len(rest) if mlw <= 4 else 6 if mlw == 5 else 2]
+        elif mlw:
             cand = [0, 1, 2, remaining - 1, remaining, remaining + 1, L, L + 5, desc["wb"], desc["wb"] + 1,
                     rng.range(0, L + 5)]
             cand = [c for c in cand if 0 <= c < (1 << mlw)]
@@ -303,5 +328,11 @@ def run_case(desc):
             "partial-valid" if any(r[0] not in (0, 1, (1 << desc["vw"]) - 1) for r in rows) else "no-partial-valid",
             "stalled-last" if stalled_last else "no-stalled-last",
             "emissions>=3" if emissions >= 3 else "emissions<3"]
+    if desc.get("sweep") and mlw:
+        # a request at the top of the max_length range against a constant that is longer than 2**mlw from the start position
+        tags.append("sweep")
+        top = (1 << mlw) - desc["wb"]
+        if any(r[0] and r[2] > top and L - r[1] * desc["wb"] > (1 << mlw) for r in stim):
+            tags.append("maxlen-top-long-constant")
     return Case(cfg, stim, rows, fails, tags, desc, ["start", "start_position", "max_length", "ready"] +
                 (["d%d" % j for j in range(L)] if ser else []), names_out)
